@@ -36,12 +36,12 @@ COMPONENTS = {
 ASSUMPTIONS = ["reference order = plain recursive lexicographic enumeration, Lehmer-code rank (ref/order.py)",
                "str round trip only for length <= 10, integer notation only where a leading zero is not lost"]
 EXPECTED_PROBES = ["memo_hit", "memo_equal_distinct_key", "after_flood", "after_clear", "interleaved_generators", "boundary_rank",
-                   "ties", "error_case", "mesh_of_length", "first_generator", "interrupted_call", "interrupted_generator"]
+                   "ties", "error_case", "mesh_of_length", "first_generator", "interrupted_call", "interrupted_generator", "interrupted_rank_unrank"]
 
 
 def plan(tier):
     if tier == "quick":
-        return {"runs": 20000, "chunk": 200, "wall_cap": 150}
+        return {"runs": 20000, "chunk": 50, "wall_cap": 150}  # small chunks: many first-uses of a fresh process
     return {"runs": 700000, "chunk": 1000, "wall_cap": 900}
 
 
@@ -111,7 +111,7 @@ def gen_case(rng, tier):
             elif kind == "up_to_length":
                 arg = rng.randint(0, maxn - 1)
             elif kind == "first":
-                arg = rng.choice([0, 1, 2, 5, 10, 34, 154, 200, 874, 900])
+                arg = rng.choice([0, 1, 2, 5, 10, 34, 154, 200, 874, 900]) if rng.random() < 0.5 else rng.randint(1, 60)
             elif kind == "mesh_of_length":
                 arg = rng.choice([0, 1, 1, 2])
             else:
@@ -137,6 +137,12 @@ def gen_case(rng, tier):
         elif r < 0.47:
             n = rng.randint(0, maxn + 2)
             bounds = [0, 1, 2, 3, 4, 9, 10, 33, 34, 153, 154, 873, 874, 5913, 5914, 46233, 46234]
+            if rng.random() < 0.15:
+                # an earlier rank / unrank call that was interrupted part-way (tables grown on demand)
+                big_n = rng.choice([5, 6, 7, 7, 8, 8])
+                ops.append({"op": "interrupted_rank", "what": rng.choice(["unrank", "unrank_n", "rank"]), "n": big_n,
+                            "r": rng.randrange(RO.factorial(big_n)),
+                            "at": rng.randint(1, 25) if rng.random() < 0.5 else {"guided": round(rng.random(), 3)}})
             if rng.random() < 0.4:
                 ops.append({"op": "unrank", "r": rng.choice(bounds) + rng.choice([-1, 0, 0, 1]) if rng.random() < 0.6
                             else rng.randrange(50000 if not big else 5_000_000)})
@@ -420,6 +426,26 @@ def execute(case):
                     hist.violate("wrong_standardisation", {"memo": status},
                                  f"{op['via']}({vals!r}): {defect} (left-to-right tie-breaking gives {want})")
                 abst.append(("std", status, state["flooded"]))
+            elif kind == "interrupted_rank":
+                import os  # pylint: disable=import-outside-toplevel
+
+                n, r = op["n"], op["r"]
+                if op["what"] == "unrank":
+                    fn = lambda: pm.Perm.unrank(sum(RO.factorial(k) for k in range(n)) + r)  # noqa: E731
+                elif op["what"] == "unrank_n":
+                    fn = lambda: pm.Perm.unrank(r, n)  # noqa: E731
+                else:
+                    fn = lambda: pm.Perm(RO.unrank_in_length(r, n)).rank()  # noqa: E731
+                pref = [os.path.join(core.repo_dir(), "permuta") + os.sep]
+                at = op["at"]
+                if isinstance(at, dict):
+                    at = histsim.guided_interrupt_at(fn, pref, at["guided"])
+                    out.probe("guided_interrupt" if at else "guided_interrupt_no_state_change")
+                status, _r, _n = histsim.run_interruptible(fn, at or 10 ** 9, pref)
+                if status == "interrupted":
+                    out.fault("interrupted_call")
+                    out.probe("interrupted_rank_unrank")
+                hist.log.add("interrupted_rank", op["what"], status)
             elif kind == "interrupted_std":
                 import os  # pylint: disable=import-outside-toplevel
 
